@@ -30,7 +30,7 @@ LEVEL_TEXT = ("Termination cycle, Doist.done and every doer's done flag are judg
 LEVEL_NOTE = "trusted: vf/sched.py recorder, vf/models/cycle.py; Python 3.12 generator.close() returns None (forced closes never carry a value)"
 ASSUMPTIONS = ["static doer sets; non-real-time mode; limit > 0 or None"]
 NSHARDS = {"quick": 8, "thorough": 16}
-REQUIRE = {"runs_with_runtime_extend_flags_judged": 300, "stale_true_reset_seen_for_extended_doer": 300, "runs_judged": 2000, "limit_fired_with_alive": 300, "no_limit_runs": 500, "self_completed_flags_checked": 3000,
+REQUIRE = {"runs_through_ado": 600, "runs_with_runtime_extend_flags_judged": 300, "stale_true_reset_seen_for_extended_doer": 300, "runs_judged": 2000, "limit_fired_with_alive": 300, "no_limit_runs": 500, "self_completed_flags_checked": 3000,
            "forced_closed_flags_checked": 800, "stale_true_reset_seen": 3000, "limit_not_multiple_of_tock": 100}
 
 
@@ -42,7 +42,27 @@ def cases(tier, seed, shard, nshards):
         prog = gen_sched.gen_prog(rng, dyadic=dyadic, nmax=7, depth=2, group_p=rng.choice([0.0, 0.3]),
                                   limit_p=0.5, leaf_kw={"forever_p": 0.2})
         prog["stale_done"] = True
-        if rng.random() < 0.2:
+        prog["runner"] = rng.choice(["do", "do", "ado"])     # the termination clauses hold for both entry points
+        r0 = rng.random()
+        if r0 < 0.06:
+            # an idle DoDoer(always=True) (own flag True) extended from outside with function / bound-method doers that
+            # finish with a bare return at enter or in their first recur: their flag must stay falsy
+            from vf import faults
+            case = faults.make_extend_idle_always(rng)
+            while case["fault"]["stop"] not in ("limit-later", "limit-same-cycle"):
+                case = faults.make_extend_idle_always(rng)
+            p2 = case["prog"]
+            for n_ in p2["pool"]:
+                n_["kind"] = rng.choice(["doify", "method", "doize", "redoer"])
+                if rng.random() < 0.5:
+                    n_["enter"], n_["fin"], n_["end"] = "finish", rng.choice([None, None, False]), None
+                else:
+                    n_["enter"], n_["end"], n_["ys"] = "ok", [1, "return", rng.choice([None, None, False, 0])], [0.0]
+            p2["limit"] = p2["limit"] + 4 * p2["tock"]
+            p2["stale_done"] = True
+            yield {"prog": p2}
+            continue
+        if r0 < 0.26:
             # doers with a stale True flag that are entered at RUNTIME through extend() (Doist or nested DoDoer):
             # only the flag clauses D3/D4 are judged for these runs (the termination model has no extend)
             callers = [lf for lf in gen_sched.leaves_of(prog["doers"]) if lf.get("enter") == "ok"]
@@ -115,8 +135,13 @@ def run_flags_only(case, ctx):
                               f"done flag is {flag!r}", trace=tr)
                 return
         elif flag:
-            ctx.violation("done-truthy-after-forced-close", f"{did} ({run.specs[did]['kind']}, {where}) ended by "
+            key = "done-truthy-after-forced-close"
+            if run.specs[did]["kind"] == "dodoer" and run.specs[did].get("always"):
+                key += ":idle-always-dodoer"     # its own recur() returned True (no deeds left) while it keeps running
+            ctx.violation(key, f"{did} ({run.specs[did]['kind']}, {where}) ended by "
                           f"{terminal.get(did)} but done={flag!r}", trace=tr)
+            if key.endswith("idle-always-dodoer"):
+                continue
             return
     ctx.count("runs_with_runtime_extend_flags_judged")
 
@@ -124,6 +149,8 @@ def run_flags_only(case, ctx):
 def run_case(case, ctx):
     prog = case["prog"]
     dyadic = prog.get("dyadic", True)
+    if prog.get("runner") == "ado":
+        ctx.count("runs_through_ado")
     dynamic = bool(prog.get("pool"))
     if dynamic:
         return run_flags_only(case, ctx)
